@@ -14,14 +14,15 @@ Definition code_flags : flags := {| fix_f17 := code_fixed_F17; fix_keep := code_
 
 (* The service registered by the harness (harness/cmd/c14/main.go: newSvc).
    REST resources, in this order: POST MsgA (v3-4), PUT MsgB (v3), GET GetE (v3),
-   GET GetI (v3-4), GET GetD (v3); websocket messages MsgA, MsgB. *)
+   GET GetI (v3-4), GET GetD (v3); websocket messages MsgA, MsgB, MsgG (as MsgB, behind
+   a gate the harness controls; the gate only shapes the interleaving). *)
 Definition c14_world : world :=
   {| w_regs := [ Reg KPost HStrict 10 3 4;
                  Reg KPut HLenient 11 3 3;
                  Reg KEmpty HConst 12 3 3;
                  Reg KInt HInt 13 3 4;
                  Reg KBytes HBytes 14 3 3 ];
-     w_ws := [ (HStrict, 1); (HLenient, 2) ] |}.
+     w_ws := [ (HStrict, 1); (HLenient, 2); (HLenient, 3) ] |}.
 
 (* one scenario: the clients, the rounds (requests of one round are in flight
    together; a barrier separates rounds), and the reply observed for each request *)
